@@ -30,7 +30,7 @@ CHECKS.update({
         "chk-object", MC,
         "explicit-state BFS over operation histories (shared with C06) comparing every reachable object with canonically rebuilt ones + exhaustive pairs/triples of a closed value universe",
         "In every reachable state of the C06 search (three hash modes, so different index internals) the history-built object is compared by ==, cmp, partial_cmp and hash with from_vec / from_iter / clone builds of the same entry list; with transitivity this covers all pairs of histories with equal entry lists. The order laws are checked on all ordered pairs and all triples of every value up to a node bound.",
-        "Law universe: all values of <= 2 (quick) / <= 3 (thorough) nodes over 7 leaves and 2 keys. Hash equality is probed with std's fixed-key SipHash.",
+        "Law universe: all 522 values of <= 3 nodes over 7 leaves and 2 keys (all pairs, all 1.4e8 triples), both tiers. Hash equality is probed with std's fixed-key SipHash.",
         "4/C14",
     ),
     "C15": (
@@ -46,19 +46,19 @@ TREE = "stateless depth-first exploration of the parser's execution tree (driver
 CHECKS.update({
     "C01": (
         "chk-parse", MC, TREE + "; complete byte-sequence families",
-        "Every input over eight alphabets (structure, mixed, number automaton x 4 follow contexts, literals, string escapes, surrogate macro-symbols, an 19-token alphabet, a 24-byte alphabet) up to a depth that is iterated upward inside the time budget, plus one (quick) / two (thorough) deviations from a 152-character wide alphabet, plus every byte sequence of length <= 3 (and the 4-byte families) inside strings and at top level, plus every truncation / byte substitution of the 311 corpus documents, is executed through every entry point and the verdict compared with R-pda + surrogate well-formedness + core::str::from_utf8. Subtrees below non-viable prefixes are pruned (sound for a deterministic single-pass parser) with a post-mortem horizon of 2 for the entry points whose consumption cannot be observed.",
+        "Every input over eight alphabets (structure, mixed, number automaton x 4 follow contexts, literals, string escapes, surrogate macro-symbols, an 19-token alphabet, a 24-byte alphabet) up to a depth that is iterated upward inside the time budget, plus one (quick) / two (thorough) deviations from a ~210-character wide alphabet (all ASCII, every UTF-8 length class and lead-byte class, Unicode spaces, BOM, surrogate neighbours, and 56 characters that alias an ASCII syntax character modulo 2^8 / 2^16), plus every byte sequence of length <= 3 (and the 4-byte families) inside strings and at top level, plus every truncation, single-byte substitution, insertion and deletion at every offset of the 311 corpus documents, plus (all tiers) every Unicode scalar as a raw character and all 65 536 \\u escapes, is executed through every entry point and the verdict compared with R-pda + surrogate well-formedness + core::str::from_utf8. Subtrees below non-viable prefixes are pruned (sound for a deterministic single-pass parser) with a post-mortem horizon of 2 for the entry points whose consumption cannot be observed.",
         "Bounded by depth and deviation count; transfer to longer texts rests on the finiteness of the parser's control state (lexical state x top of stack x lookahead), all of whose (state, input class) pairs occur in the trees. Reference models are cross-checked against each other and serde_json on every node.",
         "4/C01",
     ),
     "C02": (
         "chk-parse", MC, TREE + " on accepted leaves; complete enumeration of the escape / surrogate-pair / scalar domains",
-        "Every accepted text of the trees plus the complete families (all 65 536 \\uXXXX in both hex cases, all 1 048 576 surrogate pairs, all 1 112 064 raw scalars, all backslash+ASCII pairs, the inline->heap spill lengths 0..40) is parsed through parse_str, parse_slice and the observed iterator; the value observed through the public accessors must equal R-dec's abstract value and every key lookup on every object must equal a linear scan.",
+        "Every accepted text of the trees plus the complete families (all 65 536 \\uXXXX in both hex cases, all 1 048 576 surrogate pairs, all 1 112 064 raw scalars, all backslash+ASCII pairs, the inline->heap spill lengths 0..40, every value up to 6/7 nodes over keys {a,b} with every duplicate-key pattern and alternating raw/escaped key spellings) is parsed through parse_str, parse_slice and the observed iterator; the value observed through the public accessors must equal R-dec's abstract value and every key lookup on every object must equal a linear scan.",
         "Large/nested documents beyond the tree depth are outside; R-dec is an independent recursive-descent decoder cross-checked with R-pda and serde_json.",
         "4/C02",
     ),
     "C03": (
         "chk-parse", MC, TREE + " under four option records with a totality guard; exhaustive cover of the container-transition graph pumped to depth 5e4..2e6 in fixed-stack threads of child processes",
-        "Totality: every node of the trees, every byte string of length <= 3 over all 256 values, the <=4-byte families and every corpus edit, under all four option records, runs inside catch_unwind with a 10 s watchdog and an input iterator that aborts after 1000 polls past the end. Stack: all 84 words of length <= 3 over the four container-entry forms are pumped to depth N (5e4 quick; 2e5 and 2e6 thorough), closed / unclosed / wrongly closed, parsed through parse_slice_with and parse_str_with and traversed in a thread with a 64 KiB (256 KiB) stack inside child processes; a killed child is a violation.",
+        "Totality: every node of the trees, every byte string of length <= 3 over all 256 values, the <=4-byte families and every corpus edit, under all four option records, runs inside catch_unwind with a 10 s watchdog and an input iterator that aborts after 1000 polls past the end. Stack: all 84 words of length <= 3 over the four container-entry forms are pumped to depth N (5e4 quick; 2e5 and 2e6 thorough), closed / unclosed / wrongly closed, with seven endings (closed; unclosed; wrong innermost closer; closed + trailing garbage; wrong outermost closer; deep first item / member followed by a bad sibling - the last four exercise the parser's error path after a deep value has been built), parsed through parse_slice_with and parse_str_with and traversed in a thread with a 64 KiB (256 KiB) stack inside child processes; a killed child is a violation.",
         "Arbitrary bytes only up to length 3 (+ structured families); nesting cycles longer than 3 are outside. Dropping a deep value is recursive (outside the statement) so the pump leaks it.",
         "4/C03",
     ),
@@ -76,7 +76,7 @@ CHECKS.update({
     ),
     "C11": (
         "chk-parse", MC, TREE + " on the token trees: every accepted document's navigation API compared with a traversal table",
-        "For every accepted document of two token alphabets (all token sequences up to the bound): get_fragment for every index and three past the end, iter_mapped on every array and object, the eight mapped key lookups for every key and an absent key, volume and count are compared with a table built from traverse(), and the span at each returned offset is cut from the source and re-parsed; conversions: every nested-array / map shape up to a bound with a wrong-kind value planted at every position must fail at that fragment's index.",
+        "For every accepted document of two token alphabets (all token sequences up to the bound): get_fragment for every index and three past the end, iter_mapped on every array and object, the eight mapped key lookups for every key and an absent key, volume and count are compared with a table built from traverse(), and the span at each returned offset is cut from the source and re-parsed; every value up to 6/7 nodes with every duplicate-key pattern (compact and pretty); conversions: every nested-array / map shape up to a bound with a wrong-kind value planted at every position must fail at that fragment's index.",
         "Relies on C05 for span exactness. Conversions are covered for Vec<Vec<String>>, a harness leaf type, BTreeMap<String, Vec<_>>, Option/Box/scalars.",
         "4/C11",
     ),
@@ -92,13 +92,13 @@ ENUM = "bounded-exhaustive enumeration (every value up to a node count over a le
 CHECKS.update({
     "C04": (
         "chk-print", EX, ENUM + "; print with the real printer, re-parse with the real parser",
-        "Every value with <= 4 (quick) / <= 5 (thorough) nodes over the shape alphabet and <= 3 nodes over the rich alphabet (heap-spilled numbers, a string with every escape class, controls, DEL, U+2028, non-BMP, U+FFFF, the empty key, duplicate keys) is printed under the three presets and under every record that differs from a preset in at most two of the 15 fields (numeric fields 0..3, 8 indent units, all Limit variants with thresholds W-1, W, W+1 around every container's actual one-line width), thorough adds the full {0,1}^12 x 3 indents x 36 limit pairs grid; every Unicode scalar value is round-tripped as key and string. Each output must parse (strict) to a value equal to the original.",
+        "Every value with <= 4 (quick) / <= 5 (thorough) nodes over the shape alphabet and <= 3 nodes over the rich alphabet (heap-spilled numbers, a string with every escape class, controls, DEL, U+2028, non-BMP, U+FFFF, the empty key, duplicate keys) is printed under the three presets and under every record that differs from a preset in at most two of the 15 fields (numeric fields 0..3, 8 indent units, all Limit variants with thresholds W-1, W, W+1 around every container's actual one-line width), thorough adds the full {0,1}^12 x 3 indents x 36 limit pairs grid; every Unicode scalar value is round-tripped as key and string; S-all: every string of length <= 4 / <= 5 over one representative of each character class the printer distinguishes; P-all: every ordered pair over U+0000..U+0020 + class representatives and triples over 9 characters; C-all: every character U+0000..U+00FF individually in containers with straddling width thresholds. Each output must parse (strict) to a value equal to the original.",
         "Relies on C01/C02 for the parser. Values beyond the node bound and records more than two fields away from a preset (outside the thorough grid) are not covered.",
         "4/C04",
     ),
     "C08": (
         "chk-print", EX, "complete enumeration of the Unicode scalar domain + bounded-exhaustive structured values against a reference RFC 8785 serializer",
-        "All 1 112 064 scalar values as a one-character string, as key and value, and inside an array string, plus all structured values of the C04 families: compact_print, to_string, Display, String::from and print_with(compact) must be byte-identical to the reference serializer and contain no whitespace outside strings.",
+        "All 1 112 064 scalar values as a one-character string, as key and value, and inside an array string, plus S-all (length <= 5 / <= 6) and P-all strings and all structured values of the C04 families: compact_print, to_string, Display, String::from and print_with(compact) must be byte-identical to the reference serializer and contain no whitespace outside strings.",
         "Complete over the character domain; structured values bounded as in C04.",
         "4/C08",
     ),
@@ -113,7 +113,7 @@ CHECKS.update({
 CHECKS.update({
     "C09": (
         "chk-canon", EX, "bounded-exhaustive enumeration: every ordered selection of keys from a 15-key set (all subsets in every permutation) and three exhaustive number families, against an independent RFC 8785 reference",
-        "Keys: every ordered selection of up to 5 (quick) / 6 (thorough) distinct keys out of 15 - the set contains U+E000, U+FFFF, U+10000, U+10FFFF and mixed keys, i.e. the region where UTF-16 and code-point order differ - flat, object-in-object and object-in-array. Numbers: every JSON number spelling of length <= 7 / <= 8 over 0 1 2 5 9 - . e E +; for every double m*2^e with m in 16 (quick) / ~70 (thorough) mantissa patterns and every binary exponent, the exact decimal expansion of the double, of the midpoint to its successor and of the midpoint +-1 unit in the last place (up to ~770 digits); the notation thresholds and RFC 8785 Appendix B. canonicalize + compact_print must equal R-canon byte for byte.",
+        "Keys: every ordered selection of up to 5 (quick) / 6 (thorough) distinct keys out of 18 - the set contains U+E000, U+FFFF, U+10000, U+10001 (same high surrogate), U+10FFFF and shared-prefix keys, i.e. the region where UTF-16 and code-point order differ - flat, object-in-object and object-in-array. Numbers: every JSON number spelling of length <= 7 / <= 8 over 0 1 2 5 9 - . e E +; for every double m*2^e with m in 16 (quick) / ~70 (thorough) mantissa patterns and every binary exponent, the exact decimal expansion of the double, of the midpoint to its successor and of the midpoint +-1 unit in the last place (up to ~770 digits); a positional family (short digit strings at every magnitude 1e-15..1e25 written without exponent); the notation thresholds and RFC 8785 Appendix B. canonicalize + compact_print must equal R-canon byte for byte.",
         "R-canon = std's correctly rounded str::parse::<f64> + std's shortest digits + ECMAScript's round-half-even tie rule via an exact big-integer expansion; self-checked against Appendix B and against ryu-js on every structured double. Long decimals outside the structured family are not covered.",
         "4/C09",
     ),
